@@ -243,6 +243,7 @@ async fn one(ctx: &mut Ctx, case: u64, rng: &mut Rng, nodes: &[SNode]) -> bool {
 
     let mut written: Vec<(usize, E)> = vec![]; // accepted local writes
     let mut contents: BTreeMap<[u8; 32], usize> = BTreeMap::new(); // content hash -> node that wrote it
+    let mut last_value: BTreeMap<(usize, Vec<u8>), Vec<u8>> = BTreeMap::new();
     let mut left_once = false;
     let mut ever_left = vec![false; n];
 
@@ -286,17 +287,38 @@ async fn one(ctx: &mut Ctx, case: u64, rng: &mut Rng, nodes: &[SNode]) -> bool {
             let m = members[i].as_ref().unwrap();
             let key: Vec<u8> = (0..rng.range(0, 3)).map(|_| *rng.pick(&ALPHABET[..4])).collect();
             let ts = t0 + rng.below(8) as u64;
-            let value = format!("stack-{}-{}-{case}-{step}", ctx.seed, ctx.shard).into_bytes();
-            iroh_docs::verif::set_clock(ts);
-            let r = m.doc.set_bytes(nodes[i].author, key.clone(), value.clone()).await;
-            trace.push(format!("node{i}: set {}@{} -> {}", hex::encode(&key), ts - t0, r.is_ok()));
-            if let Ok(hash) = r {
-                let e = E { author: nodes[i].author.to_bytes(), key, ts, hash: *hash.as_bytes(), len: value.len() as u64 };
-                if *blake3::hash(&value).as_bytes() != e.hash {
-                    bail_h!("set_bytes returned a hash that is not the hash of the value");
+            // One write in five repeats the content the same node last wrote at this key, and one in
+            // eight is followed by a write below the key and the same content at the key once more
+            // (added after seeded change agent-C04-9): an accepted write is a new record, whatever it
+            // carries — it wins by its timestamp and prunes what lies below it.
+            let value = match last_value.get(&(i, key.clone())) {
+                Some(v) if rng.chance(1, 5) => {
+                    ctx.count("writes_repeating_the_content_of_the_key", 1);
+                    v.clone()
                 }
-                contents.insert(e.hash, i);
-                written.push((i, e));
+                _ => format!("stack-{}-{}-{case}-{step}", ctx.seed, ctx.shard).into_bytes(),
+            };
+            let mut todo = vec![(key.clone(), value.clone(), ts)];
+            if key.len() < 3 && rng.chance(1, 8) {
+                let mut child = key.clone();
+                child.push(*rng.pick(&ALPHABET[..4]));
+                todo.push((child, format!("stack-{}-{}-{case}-{step}-below", ctx.seed, ctx.shard).into_bytes(), t0 + rng.below(8) as u64));
+                todo.push((key.clone(), value.clone(), t0 + rng.below(8) as u64));
+                ctx.count("writes_repeating_the_content_of_the_key", 1);
+            }
+            for (key, value, ts) in todo {
+                last_value.insert((i, key.clone()), value.clone());
+                iroh_docs::verif::set_clock(ts);
+                let r = m.doc.set_bytes(nodes[i].author, key.clone(), value.clone()).await;
+                trace.push(format!("node{i}: set {}@{} -> {}", hex::encode(&key), ts - t0, r.is_ok()));
+                if let Ok(hash) = r {
+                    let e = E { author: nodes[i].author.to_bytes(), key, ts, hash: *hash.as_bytes(), len: value.len() as u64 };
+                    if *blake3::hash(&value).as_bytes() != e.hash {
+                        bail_h!("set_bytes returned a hash that is not the hash of the value");
+                    }
+                    contents.insert(e.hash, i);
+                    written.push((i, e));
+                }
             }
         } else if roll < 62 {
             let i = *rng.pick(&joined);
